@@ -24,13 +24,14 @@ _T = None
 def targets():
     global _T
     if _T is None:
-        from pyvc import npfuncs, pdmodel
+        from pyvc import libmodels, npfuncs, pdmodel
 
         _T = front.Targets(
             ["ioos_qc.utils", "ioos_qc.qartod", "ioos_qc.argo", "ioos_qc.axds"],
             np_model=npfuncs.NP,
             pd_model=pdmodel.PD,
             builtins_model=bm.REBOUND,
+            extra={"ioos_qc.utils": {"Geodesic": libmodels.Geodesic}},
         )
     return _T
 
